@@ -166,9 +166,11 @@ def mon_c09(sc, prof, pairs):
         if i["step"] == "end": continue
         line = sc.lines[int(i["step"])]
         w = line.split()
-        if not (w[0].startswith("t") and (w[0][1:] in ("push", "pop", "insert", "remove", "swap_remove", "replace", "truncate", "clear", "append", "split_off", "new", "get", "len")) or w[0] == "bounds"):
+        trait_sort = (w[0] == "sort" and len(w) > 2 and w[2].startswith(("tsm_", "tvec_"))) or w[0] == "apply_index"
+        if not (w[0].startswith("t") and (w[0][1:] in ("push", "pop", "insert", "remove", "swap_remove", "replace", "truncate", "clear", "append", "split_off", "new", "get", "len")) or w[0] == "bounds" or trait_sort):
             continue
         sub = w[0] if w[0] != "tget" else f"tget:{w[3]}"
+        if trait_sort: sub = f"{w[0]}:{w[2]}"
         for f in ("status", "ret", "regs"):
             if i.get(f) != s.get(f):
                 out.append(Failure(sc, prof, i["step"], f"{line}: {f}: soa={i.get(f)} std={s.get(f)}", f"C09:{sub}:{f}", {"I": i["raw"], "S": s["raw"]}))
@@ -453,6 +455,10 @@ def mon_c16(sc, prof, pairs):
             before = sorted(r for c in parse_regs(prev) for r in rows_of(c)); after = sorted(r for c in regs for r in rows_of(c))
             if not wrote and before != after:
                 out.append(Failure(sc, prof, i["step"], f"{line}: elements lost or duplicated by the caught panic: before={prev} after={i['regs']}", f"C16:{op}:elements", {"I": i["raw"]}))
+                break
+            if len(before) != len(after):
+                # (the callback wrote to elements, so their tags changed; their number cannot)
+                out.append(Failure(sc, prof, i["step"], f"{line}: the number of elements changed across the caught panic: before={prev} after={i['regs']}", f"C16:{op}:count", {"I": i["raw"]}))
                 break
         prev = i["regs"]
     return out
